@@ -13,6 +13,8 @@
 import IbicusModel.Props.C06
 import IbicusModel.Props.C16
 import IbicusModel.Lemmas.C06Stats
+import IbicusModel.Lemmas.C06Rank
+import IbicusModel.Lemmas.IsimipModel
 import IbicusModel.Lemmas.GenDebiasers
 
 namespace Props.C06
@@ -178,7 +180,12 @@ def cdftShift (d : DeltaShift) (obs H : List Rat) (a : Rat) : Rat :=
 
 theorem cdftShifted_eq (d : DeltaShift) (obs H F : List Rat) :
     cdftShifted d obs H F = (H.map (cdftShift d obs H), F.map (cdftShift d obs H)) := by
-  cases d <;> simp [cdftShifted, cdftShift]
+  cases d with
+  | additive => rfl
+  | multiplicative => rfl
+  | no_shift =>
+    have : cdftShift .no_shift obs H = id := rfl
+    simp [cdftShifted, this]
 
 /-- CDFt without SSR, for every pair of `ecdf` / `iecdf` methods: no tie-freeness is needed (both empirical
     functions are functions of the sorted sample; nothing is sorted back) -/
@@ -197,5 +204,53 @@ theorem cdft_pointwise_orderfree (d : DeltaShift) (em : EcdfMethod) (im : IecdfM
     funext a
     simp only [hs]
     rw [iecdf1_perm im (hx.map _), ecdf1_perm em (hh.map _), iecdf1_perm im ho, ecdf1_perm em (hx.map _)]
+
+/-! ## 4. ScaledDistributionMapping (absolute) — rank based, tie-free `cm_future`
+
+  Full statement: for a tie-free future window sample the result is `cm_future` mapped element-wise with a context
+  that depends on the three samples up to permutation; the value at a step depends on its own value and on
+  `#{w ∈ cm_future | w < value}` only.  With ties the stable-argsort model and numpy's unstable `argsort` may order
+  equal values differently: outside the property ("tie-free values for rank-based methods"). -/
+
+/-- the element-wise form that `sdmAbsolute` takes on tie-free samples (total, defined for every sample) -/
+def sdmAbsolutePW (Fam : LocScaleFam) (o h x : List Rat) : List Rat := x.map (sdmAbsG Fam o h x)
+
+theorem sdmAbsolute_eq_PW (Fam : LocScaleFam) (o h x : List Rat) (hx : x.Nodup) :
+    sdmAbsolute Fam o h x = sdmAbsolutePW Fam o h x := sdmAbsolute_pointwise Fam o h x hx
+
+theorem sdm_absolute_pointwise_orderfree (Fam : LocScaleFam) (hfit : LocScalePerm Fam) :
+    PointwiseOrderFree (sdmAbsolutePW Fam) :=
+  ⟨sdmAbsG Fam, fun _ _ _ => rfl, fun _ _ _ _ _ _ ho hh hx => sdmAbsG_orderFree Fam hfit ho hh hx⟩
+
+/-! ## 5. ISIMIP step 6 — rank based, tie-free `cm_future`, every configuration
+
+  `step6` sorts the four samples, computes `mapped_vals` from the sorted samples and returns
+  `mapped_vals[argsort(argsort(cm_future))]`.  Errors (`Except`) are part of the context. -/
+
+open Model.Isimip in
+/-- `mapped_vals` (sorted order of `cm_future`) or the error: the order-free context of step 6 -/
+def step6Ctx (c : Cfg) (fam : IsiFamily) (o : Oracles) (obs obsFut H F : List Rat) : Except String (List Rat) :=
+  (step6Full c fam o obs obsFut H F).map (·.mappedSorted)
+
+theorem except_map_bind {ε α β γ} (x : Except ε α) (g : α → Except ε β) (f : β → γ) :
+    Except.map f (x >>= g) = x >>= fun a => Except.map f (g a) := by
+  cases x <;> rfl
+
+theorem except_bind_congr {ε α β} (x : Except ε α) (g g' : α → Except ε β) (h : ∀ a, g a = g' a) :
+    (x >>= g) = (x >>= g') := by
+  have : g = g' := funext h
+  rw [this]
+
+open Model.Isimip in
+/-- the return value of `step6` is its `mapped_vals` read through the ranks of `cm_future` -/
+theorem step6_eq_ctx (c : Cfg) (fam : IsiFamily) (o : Oracles) (obs obsFut H F : List Rat) :
+    step6 c fam o obs obsFut H F = (step6Ctx c fam o obs obsFut H F).map (fun m => takeIdx m (rankOf F)) := by
+  unfold step6 step6Ctx step6Full
+  simp only [except_map_bind]
+  apply except_bind_congr; intro m1
+  apply except_bind_congr; intro m2
+  apply except_bind_congr; intro t
+  obtain ⟨a, b, c⟩ := t
+  rfl
 
 end Props.C06
